@@ -1004,7 +1004,7 @@ pub fn directed() -> Vec<Request> {
         }
     }
     // explicit discriminants of every expression class
-    for d in ["1", "-1", "1 + 2", "Self::K as isize", "{ 1 }", "m!()", "0x10", "1u8 as isize", "b'a' as isize", "(2)", "!0", "N", "K::V", "1 << 3", "if true { 1 } else { 2 }", "'a' as isize", "isize::MAX", "r#type", "\u{e9}"] {
+    for d in ["9223372036854775807", "-9223372036854775808", "9223372036854775806", "18446744073709551615", "340282366920938463463374607431768211455", "255", "256", "-129", "65535", "0xFFFF_FFFF_FFFF_FFFF", "0x7fff_ffff_ffff_ffff", "1_000", "1isize", "255u8", "-1i8", "0", "-0", "(9223372036854775807)", "1", "-1", "1 + 2", "Self::K as isize", "{ 1 }", "m!()", "0x10", "1u8 as isize", "b'a' as isize", "(2)", "!0", "N", "K::V", "1 << 3", "if true { 1 } else { 2 }", "'a' as isize", "isize::MAX", "r#type", "\u{e9}"] {
         for item in [
             format!("enum X {{ A = {d}, B }}"),
             format!("enum X {{ A, #[default] B = {d}, C(u8) = 7, D {{ a: u8 }} = {d} }}"),
